@@ -101,3 +101,51 @@ Proof.
       replace (- e * - e * - e) with (- (e * e * e)) by ring. rewrite He; ring.
     + assert (x = 0) by lra. subst; ring.
 Qed.
+
+(* integer powers x^m (m : Z), as a unary function of x for each m *)
+Definition pz (m : Z) (x : R) : R := powerRZ x m.
+Lemma pz_succ m x : x <> 0 -> pz (m + 1) x = pz m x * x.
+Proof. intros H; unfold pz. rewrite powerRZ_add by assumption. rewrite powerRZ_1. reflexivity. Qed.
+Lemma pz_pred m x : x <> 0 -> pz (m - 1) x = pz m x / x.
+Proof. intros H. replace m with ((m - 1) + 1)%Z at 2 by ring. rewrite pz_succ by assumption. field; assumption. Qed.
+Lemma is_derive_pz m x : x <> 0 -> is_derive (pz m) x (IZR m * pz (m - 1) x).
+Proof.
+  intros Hx. destruct m as [|p|p].
+  - unfold pz; simpl. apply (is_derive_ext (fun _ => 1)); [reflexivity|]. auto_derive; [exact I | ring].
+  - destruct (Pos2Nat.is_succ p) as [k Hk].
+    assert (Hz : Zpos p = Z.of_nat (S k)) by (rewrite <- Hk; symmetry; apply positive_nat_Z).
+    rewrite Hz. apply (is_derive_ext (fun t => t ^ S k)).
+    + intros t. unfold pz. rewrite pow_powerRZ. reflexivity.
+    + replace (Z.of_nat (S k) - 1)%Z with (Z.of_nat k) by (rewrite Nat2Z.inj_succ; ring).
+      unfold pz. rewrite <- pow_powerRZ. rewrite <- INR_IZR_INZ. auto_derive; [exact I|].
+      simpl. ring.
+  - destruct (Pos2Nat.is_succ p) as [k Hk].
+    assert (Hp : forall t, t <> 0 -> pz (Zneg p) t = / (t ^ S k)) by (intros t Ht; unfold pz; simpl; rewrite Hk; reflexivity).
+    assert (Hq : pz (Zneg p - 1) x = / (x ^ S (S k))).
+    { rewrite pz_pred, Hp by assumption. simpl. field. split; [apply pow_nonzero|]; assumption. }
+    rewrite Hq.
+    assert (Hi : IZR (Zneg p) = - INR (S k)).
+    { change (Zneg p) with (- Zpos p)%Z. rewrite opp_IZR. f_equal. rewrite <- Hk. rewrite INR_IZR_INZ. rewrite positive_nat_Z. reflexivity. }
+    rewrite Hi.
+    apply (is_derive_ext_loc (fun t => / (t ^ S k))).
+    + assert (He : 0 < Rabs x / 2) by (pose proof (Rabs_pos_lt x Hx); lra).
+      exists (mkposreal _ He). intros t Ht. simpl in Ht.
+      unfold ball in Ht; simpl in Ht; unfold AbsRing_ball, abs, minus, plus, opp in Ht; simpl in Ht.
+      symmetry; apply Hp. intros E; subst t. rewrite Rplus_0_l, Rabs_Ropp in Ht. lra.
+    + pose proof (pow_nonzero x k Hx) as Hk0.
+      auto_derive. { simpl. apply Rmult_integral_contrapositive_currified; assumption. }
+      simpl. field. split; assumption.
+Qed.
+#[global] Instance UnaryDiff_pz m : UnaryDiff' (pz m) :=
+  {| UnaryDiff'_f' := fun x => IZR m * pz (m - 1) x; UnaryDiff'_df := fun x => x <> 0; UnaryDiff'_H := is_derive_pz m |}.
+
+(* real powers x^m (m : R) on x > 0, as a unary function of x for each m *)
+Definition rp (m : R) (x : R) : R := Rpower x m.
+Lemma is_derive_rp m x : 0 < x -> is_derive (rp m) x (m * rp (m - 1) x).
+Proof. intros H. apply is_derive_Reals. unfold rp. apply (derivable_pt_lim_power x m H). Qed.
+#[global] Instance UnaryDiff_rp m : UnaryDiff' (rp m) :=
+  {| UnaryDiff'_f' := fun x => m * rp (m - 1) x; UnaryDiff'_df := fun x => 0 < x; UnaryDiff'_H := is_derive_rp m |}.
+Lemma rp_pred m x : 0 < x -> rp (m - 1) x = rp m x / x.
+Proof.
+  intros H. unfold rp, Rminus. rewrite Rpower_plus, Rpower_Ropp, Rpower_1 by assumption. reflexivity.
+Qed.
